@@ -1,5 +1,5 @@
 """Behaviour-preserving refactorings used to test the robustness of the C14 pack (round 3).
-usage: /venv/bin/python tools/harmless_edits_C14.py <R1..R23>   (applies one edit to the scratch tree /tmp/wt_C14;
+usage: /venv/bin/python tools/harmless_edits_C14.py <R1..R41 | X40..X45 (breaking: exit 1 expected)>   (applies one edit to the scratch tree /tmp/wt_C14;
 then `VERIF_REPO=/tmp/wt_C14 ./check C14` must exit 0; undo with `git -C /tmp/wt_C14 checkout -- .`)"""
 import re, sys
 E = "/tmp/wt_C14/sharepoint2text/parsing/extractors/"
@@ -262,6 +262,111 @@ def R35():  # pdf: enumerate -> counter, helper call inline, keyword arguments
     s = s.replace(old, "    position = 0\n    for obj_name, obj, caption in candidates:\n        position += 1\n        try:\n            found_images.append(_extract_image(obj, obj_name, caption=caption, page_num=page_num, index=position))\n")
     s = s.replace('"Failed to extract image [%s] [%d]: %s", obj_name, image_index, e', '"Failed to extract image [%s] [%d]: %s", obj_name, position, e')
     open(p, "w").write(s)
+
+# ---- round 7: observation accessors and content-type helpers.  R4x must keep exit 0; X4x are BREAKING variants that must give exit 1 ----
+DTP = E + "data_types.py"
+def _in_class(cls, old, new):
+    s = open(DTP).read(); i = s.index(f"class {cls}(ImageInterface):"); j = s.index("\n@dataclass", i)
+    assert s[i:j].count(old) >= 1, (cls, old[:50])
+    open(DTP, "w").write(s[:i] + s[i:j].replace(old, new, 1) + s[j:])
+
+def R40():  # accessors: metadata built step by step through the attribute view, get_bytes restructured, redundant seek dropped
+    _in_class("PptxImage", """        return ImageMetadata(
+            image_number=self.image_index,
+            content_type=self.content_type,
+            unit_number=self.slide_number,
+            width=self.width if self.width is not None and self.width > 0 else None,
+            height=self.height if self.height is not None and self.height > 0 else None,
+        )""", """        w, h = self.width, self.height
+        if w is None or w <= 0:
+            w = None
+        if not (h is not None and h > 0):
+            h = None
+        md = ImageMetadata(unit_number=self.slide_number, image_number=self.image_index, content_type=self.get_content_type())
+        md.width = w
+        md.height = h
+        return md""")
+    _in_class("DocxImage", """        if self.data is None:
+            return io.BytesIO()
+        self.data.seek(0)
+        return self.data""", """        stream = self.data
+        if stream is not None:
+            stream.seek(0)
+            return stream
+        return io.BytesIO(b"")""")
+    _in_class("PdfImage", """        fl = io.BytesIO(self.data)
+        fl.seek(0)
+        return fl""", """        return io.BytesIO(self.data)""")
+    _in_class("OpenDocumentImage", """        width_px = _odf_length_to_px(self.width)
+        height_px = _odf_length_to_px(self.height)
+""", """        width_px, height_px = (_odf_length_to_px(v) for v in (self.width, self.height))
+""")
+
+def R41():  # content-type helpers: rpartition, membership test + subscript, unpacked guess_type
+    p = E + "ms_modern/xlsx_extractor.py"
+    sub(p, 'ext = filename.rsplit(".", 1)[-1].lower() if "." in filename else ""', '_, dot, tail = filename.rpartition(".")\n    ext = tail.lower() if dot else ""')
+    sub(p, '    return _CONTENT_TYPE_MAP.get(ext, "image/unknown")', '    if ext in _CONTENT_TYPE_MAP:\n        return _CONTENT_TYPE_MAP[ext]\n    return "image/unknown"')
+    sub(E + "open_office/_shared.py", '    return mimetypes.guess_type(path)[0] or "application/octet-stream"',
+        '    guessed, _encoding = mimetypes.guess_type(path)\n    if guessed:\n        return guessed\n    return "application/octet-stream"')
+
+def X40():  # BREAKING: the slide of a picture is reported as its running number
+    _in_class("PptxImage", "unit_number=self.slide_number", "unit_number=self.image_index")
+def X41():  # BREAKING: the stored stream is handed out where the last reader left it
+    _in_class("DocxImage", "        self.data.seek(0)\n", "")
+def X42():  # BREAKING: ODF height computed from the width
+    _in_class("OpenDocumentImage", "height_px = _odf_length_to_px(self.height)", "height_px = _odf_length_to_px(self.width)")
+def X43():  # BREAKING: extension not lower-cased (image1.PNG -> image/unknown)
+    sub(E + "ms_modern/xlsx_extractor.py", 'ext = filename.rsplit(".", 1)[-1].lower() if "." in filename else ""', 'ext = filename.rsplit(".", 1)[-1] if "." in filename else ""')
+def X44():  # BREAKING: the encoding component of guess_type is returned
+    sub(E + "open_office/_shared.py", 'mimetypes.guess_type(path)[0] or', 'mimetypes.guess_type(path)[1] or')
+def X45():  # BREAKING: RTF kind table maps jpg to a type that does not exist
+    s = open(DTP).read(); i = s.index("class RtfImage(ImageInterface):")
+    open(DTP, "w").write(s[:i] + s[i:].replace('"jpg": "image/jpeg",', '"jpg": "image/jpg",', 1))
+
+def R42():  # units: page counter instead of enumerate; slide number through a local; metadata built in two steps
+    sub(DTP, """        for page_number, page in enumerate(self.pages, start=1):
+            yield PdfUnit(""", """        page_number = 0
+        for page in self.pages:
+            page_number += 1
+            yield PdfUnit(""")
+    sub(DTP, """            yield PptxUnit(
+                slide_number=slide.slide_number,""", """            number = slide.slide_number
+            yield PptxUnit(
+                slide_number=number,""")
+    sub(DTP, "        return PptxUnitMetadata(unit_number=self.slide_number)", "        md = PptxUnitMetadata(unit_number=0)\n        md.unit_number = self.slide_number\n        return md")
+def X46():  # BREAKING: pages are numbered from 0
+    sub(DTP, "for page_number, page in enumerate(self.pages, start=1):\n            yield PdfUnit(", "for page_number, page in enumerate(self.pages):\n            yield PdfUnit(")
+def X47():  # BREAKING: ODP units are numbered by position although the slide (and its pictures) carry the stored slide number
+    sub(DTP, """            yield OdpUnit(
+                slide_number=slide.slide_number,""", """            yield OdpUnit(
+                slide_number=len(parts),""")
+def X48():  # BREAKING: the sheet unit reports the 0-based index
+    sub(DTP, "        return XlsxUnitMetadata(\n            unit_number=self.sheet_index,", "        return XlsxUnitMetadata(\n            unit_number=self.sheet_index - 1,")
+
+def R43():  # ImageMetadata: only the optional entries are (re)written by __post_init__ (the others are mirrored by __setattr__ already)
+    sub(DTP, """            unit_number=self.unit_number,
+            image_number=self.image_number,
+            content_type=self.content_type,
+            width=self.width,
+            height=self.height,
+        )
+
+    def __setattr__""", """            unit_number=self.unit_number,
+            width=self.width,
+            height=self.height,
+        )
+
+    def __setattr__""")
+def X49():  # BREAKING: the dict view shows width and height swapped
+    sub(DTP, """            width=self.width,
+            height=self.height,
+        )
+
+    def __setattr__""", """            width=self.height,
+            height=self.width,
+        )
+
+    def __setattr__""")
 
 globals()[sys.argv[1]]()
 print("applied", sys.argv[1])
